@@ -198,6 +198,33 @@ pub const RECORDS: &[&str] = &[
     "FUNC 3000 10 0 second",
     "3000 10 5 0",
 ];
+/// An empty line ends a FUNC / STACK CFI group, so a sub-line after it is an orphan: these files fail to
+/// parse — under every chunking alike. (`orphan` = index of the first orphan line.)
+pub fn family_gappy() -> Vec<Inp> {
+    let variants: [(&str, Vec<&str>, usize); 4] = [
+        ("func", vec!["MODULE a b c d", "FUNC 10 8 0 f", "", "10 4 1 0", "PUBLIC 40 0 p"], 3),
+        ("func-mid", vec!["MODULE a b c d", "FUNC 10 8 0 f", "10 4 1 0", "", "", "14 4 2 0", "PUBLIC 40 0 p"], 5),
+        ("cfi", vec!["MODULE a b c d", "STACK CFI INIT 10 8 .cfa: $sp .ra: .cfa ^", "", "STACK CFI 14 .cfa: $sp 4 +", "PUBLIC 40 0 p"], 3),
+        ("valid-gaps", vec!["MODULE a b c d", "", "FUNC 10 8 0 f", "10 4 1 0", "", "", "STACK CFI INIT 10 8 .cfa: $sp .ra: .cfa ^", "STACK CFI 14 .cfa: $sp 4 +", "", "PUBLIC 40 0 p", ""], usize::MAX),
+    ];
+    let mut v = vec![];
+    for eol in ["\n", "\r\n"] {
+        for (tag, lines, orphan) in &variants {
+            let mut d = vec![];
+            let mut at = None;
+            for (j, l) in lines.iter().enumerate() {
+                if j == *orphan {
+                    at = Some(d.len());
+                }
+                d.extend_from_slice(l.as_bytes());
+                d.extend_from_slice(eol.as_bytes());
+            }
+            let maxl = lines.iter().map(|r| r.len()).max().unwrap() + eol.len();
+            v.push(Inp { label: format!("gappy {tag} {}", if eol == "\n" { "LF" } else { "CRLF" }), data: d, corrupt_at: at, final_newline: true, max_line: maxl });
+        }
+    }
+    v
+}
 pub const SHORT_RECORDS: &[&str] = &["MODULE a b c d", "FUNC 10 8 0 f", "10 8 1 0", "STACK CFI INIT 10 8 .cfa: $sp .ra: .cfa ^", "STACK CFI 14 .cfa: $sp 4 +", "PUBLIC 40 0 p"];
 pub fn family_b(records: &[&str], tag: &str) -> Vec<Inp> {
     let mut v = vec![];
